@@ -250,6 +250,7 @@ func runC08(c *report.Ctx) {
 			}
 		} else {
 			okAll, any := true, false
+			progress := true
 			for _, b := range rrc.Blocks {
 				r, isRet := b.Instrs[len(b.Instrs)-1].(*ssa.Return)
 				if !isRet || len(r.Results) != 3 || p.ClassifyReturn(r, nil) == an.RetError {
@@ -274,7 +275,18 @@ func runC08(c *report.Ctx) {
 					if pred != hdr && (isTrue || !isK) {
 						okAll = false
 					}
+					// a round is cut short only at a credit of the wallet being removed (under the script-hash test):
+					// cut short at foreign credits, every round re-reads the same foreign prefix, deletes nothing and
+					// reports "not finished" for ever
+					if isK && !isTrue && !ownCreditGuard(p, rrc, p.GuardsOnEdge(pred, ph.Block())) {
+						progress = false
+					}
 				}
+			}
+			if progress {
+				c.OK(sk(rrc)+":round-cut-only-at-own-credit", "the scan reports 'not finished' only under the script-hash test", p.Pos(rrc.Pos()))
+			} else {
+				c.Fail(sk(rrc)+":round-cut-only-at-own-credit", "a removal round can be cut short at a credit that is not the removed wallet's (a limit on entries visited): each round starts at the first key again, so beside a wallet with more credits than the limit the round deletes nothing, the worker repeats it for ever, the follower is parked each time and later tasks never start", p.Pos(rrc.Pos()))
 			}
 			if any && okAll {
 				c.OK(key, "finish is true only on the edge where iter.Next() returned false; every early exit of the scan reports false", p.Pos(rrc.Pos()))
@@ -289,9 +301,14 @@ func runC08(c *report.Ctx) {
 	ruleRemovalKeepsSurvivorsReservations(c)
 	ruleNoNewRowsForRemovedWallet(c)
 	ruleRemovableVerdictConsidersInputs(c)
+	ruleSpenderReferenceIsTheInput(c)
+	ruleRemovalAnswersOnlyAfterPassphrase(c)
+	ruleBlockRecordKeepsOrder(c)
+	ruleTaskQueuedAfterDurableMarker(c) // "removal is refused while importing": no task without the flag's successful commit
 	c.Rule("removal-resumed-after-restart", "the worker's start-up scan queues a removal for every status row flagged removed — under IsRemoved() alone: a removal interrupted between two of its steps is finished after a restart", 1)
 	ruleRestartResumesTasks(c)
 	rulePartialDecoderFreshRecord(c)
+	ruleStatusRowsOneDecoder(c)
 	ruleBalanceLookupPresence(c) // a rollback between two removal steps must not re-create the removed wallet's rows
 	ruleImportAppliesSpends(c)   // "the same mnemonic can be imported again": records a removal kept for a co-owner must not make the re-import skip the spends
 	ruleSelectionResetOnDelete(c)
@@ -512,10 +529,47 @@ func finishCellForm(c *report.Ctx, rrc *ssa.Function, key string) bool {
 			okExits = false
 		}
 	}
+	progress := true
+	for _, g := range withLiterals(rrc) {
+		an.Instrs(g, func(in ssa.Instruction) {
+			st, ok := in.(*ssa.Store)
+			if !ok || !isCell(st.Addr) {
+				return
+			}
+			if k, isK := st.Val.(*ssa.Const); isK && k.Value != nil && k.Value.ExactString() == "false" && !ownCreditGuard(p, rrc, p.GuardsOf(in)) {
+				progress = false
+			}
+		})
+	}
+	if progress {
+		c.OK(sk(rrc)+":round-cut-only-at-own-credit", "the scan reports 'not finished' only under the script-hash test", p.Pos(rrc.Pos()))
+	} else {
+		c.Fail(sk(rrc)+":round-cut-only-at-own-credit", "a removal round can be cut short at a credit that is not the removed wallet's (a limit on entries visited): each round starts at the first key again, so beside a wallet with more credits than the limit the round deletes nothing and the worker repeats it for ever", p.Pos(rrc.Pos()))
+	}
 	if okRet && okStores && okExits {
 		c.OK(key, "finish is a variable set true before the scan and false on every early way out of it; the success return hands it back", p.Pos(rrc.Pos()))
 	} else {
 		c.Fail(key, "the credit scan can be left early (batch limit / height boundary) while still reporting finish: the wallet's status and keystore are deleted although credits carrying its script hashes remain", p.Pos(rrc.Pos()))
 	}
 	return true
+}
+
+// ownCreditGuard: among gs, the test that the credit in hand carries one of the removed wallet's script hashes
+// (`_, ok := scriptHashSet[…]` found, the set being rrc's map parameter — or a variable it was copied to).
+func ownCreditGuard(p *an.Prog, rrc *ssa.Function, gs []an.Atom) bool {
+	return an.AnyAtom(gs, func(a an.Atom) bool {
+		if a.Op != token.ILLEGAL || !a.Truth {
+			return false
+		}
+		ex, ok := a.X.(*ssa.Extract)
+		if !ok || ex.Index != 1 {
+			return false
+		}
+		lk, ok := ex.Tuple.(*ssa.Lookup)
+		if !ok || !lk.CommaOk {
+			return false
+		}
+		_, isMap := lk.X.Type().Underlying().(*types.Map)
+		return isMap && strings.Contains(p.Desc(lk.X), "map[string]struct{}")
+	})
 }
